@@ -15,7 +15,7 @@ mod private {
         fn weight(i: usize, n: usize) -> f64;
 
         fn estimate_unchecked<S: State>(spectrum: &Spectrum<S>) -> f64 {
-            let n = spectrum.elements() - 1;
+            let n = spectrum.elements().saturating_sub(1);
 
             spectrum
                 .array
@@ -37,7 +37,8 @@ pub struct FuLi;
 
 impl private::Estimator for FuLi {
     fn estimate_unchecked<S: State>(spectrum: &Spectrum<S>) -> f64 {
-        spectrum.inner().as_slice()[1]
+        // No singleton class in a spectrum of fewer than two entries
+        spectrum.inner().as_slice().get(1).copied().unwrap_or(f64::NAN)
     }
 
     fn weight(_: usize, _: usize) -> f64 {
